@@ -84,8 +84,9 @@ package varmq
 // C16/C05: whoever is released from Wait must already read Closed: the status is stored before the handle's waiters are released
 //@   assert [closed-before-release] before call sync.WaitGroup.Done: j.status == closed
 
+// C16: Wait returns only through the wait group, which Close releases after it has stored Closed (so a returned Wait reads Closed)
 //@ func job.Wait
-//@   props C05
+//@   props C05 C16
 //@   modifies j.wg
 //@   ensures j.wg == 0
 
